@@ -45,6 +45,7 @@ type SpecEnv struct {
 	resolver func(name string) (SVal, bool)
 	frame    *Frame
 	oldAlloc Term
+	bound    []string // SMT names of the quantified variables in scope
 }
 
 func (e *SpecEnv) child() *SpecEnv {
@@ -326,7 +327,20 @@ func (e *SpecEnv) toBytes(v SVal) Term {
 			specFail("bytes() needs a state")
 		}
 		h := e.vc.heapVar(e.vc.sorts.elemHeap(v.Ty.Go.Underlying().(*types.Slice).Elem()))
-		return e.vc.bseq(sel(e.vc.get(e.st, h), sref(v.T)), soff(v.T), slen(v.T))
+		arr, off, n := sel(e.vc.get(e.st, h), sref(v.T)), soff(v.T), slen(v.T)
+		for _, b := range e.bound {
+			if strings.Contains(v.T, b) {
+				// the slice term mentions a quantified variable: it cannot be named by a
+				// global constant; use the bseq term in place (len / index still read the array)
+				t := fmt.Sprintf("(bseq %s %s %s)", arr, off, n)
+				if e.vc.bseqSrc == nil {
+					e.vc.bseqSrc = map[Term][3]Term{}
+				}
+				e.vc.bseqSrc[t] = [3]Term{arr, off, n}
+				return t
+			}
+		}
+		return e.vc.bseq(arr, off, n)
 	}
 	specFail("cannot convert %s to Bytes", v.Ty.Sort)
 	return ""
@@ -406,6 +420,7 @@ func (e *SpecEnv) eval(x SExpr) SVal {
 			name := smtSym(fmt.Sprintf("q_%s!%d", qv.Name, vc.n))
 			binds = append(binds, fmt.Sprintf("(%s %s)", name, ty.Sort))
 			c.names[qv.Name] = SVal{name, ty}
+			c.bound = append(append([]string{}, c.bound...), name)
 		}
 		body := c.evalBool(n.Body)
 		q := "exists"
@@ -638,6 +653,9 @@ func (e *SpecEnv) evalBinary(n *SBinary) SVal {
 }
 
 func (e *SpecEnv) isNil(v SVal, n SExpr) Term {
+	if v.Ty.Sort == "Iface" {
+		return fmt.Sprintf("(= %s Iface_nil)", v.T)
+	}
 	switch goUnder(v.Ty).(type) {
 	case *types.Slice:
 		return fmt.Sprintf("(= (Slice_ref %s) 0)", v.T)
